@@ -195,7 +195,9 @@ bool muggle_bytes_buffer_read(muggle_bytes_buffer_t *bytes_buf, int num_bytes, v
 		memcpy(dst, bytes_buf->buffer + bytes_buf->r, num_bytes);
 
 		bytes_buf->r += num_bytes;
-		if (bytes_buf->r == bytes_buf->t)
+		// only a wrapped reader (r > w) can reach the truncation mark; in the
+		// contiguous layout t may be a stale mark the writer has stopped on
+		if (bytes_buf->r == bytes_buf->t && bytes_buf->r > bytes_buf->w)
 		{
 			bytes_buf->r = 0;
 		}
